@@ -263,9 +263,8 @@ class _ConnectionBase:
                 raise BufferTooShort(result.getvalue())
             # Message can fit in dest
             result.seek(0)
-            result.readinto(m[
-                offset // itemsize:(offset + size) // itemsize
-            ])
+            # offset and size are in bytes whatever the buffer's item size
+            result.readinto(m.cast('B')[offset:offset + size])
             return size
 
     def recv(self):
